@@ -560,6 +560,7 @@ func TestC08(t *testing.T) {
 	}
 	restore() // directed scenarios install their own marker handler
 	c08directed(ctx, run, rng.Split("directed"), base, pool)
+	c08firstMiss(ctx, run, rng.Split("first-miss"), base, pool)
 	restore = verifhook.Set(c08hook())
 	if vkit.Thorough() {
 		c08forcedClose(ctx, run, rng.Split("forced-close"), base, pool)
@@ -611,7 +612,8 @@ func c08directed(ctx context.Context, run *vkit.Run, r *vkit.RNG, base string, p
 			run.Inconclusive("directed: " + err.Error())
 			return
 		}
-		sq := pool[r.Intn(len(pool))]
+		sqi := r.Intn(len(pool))
+		sq := pool[sqi]
 		h := uint64(40 + r.Intn(100))
 		hst := &c08hist{id: 100000 + i, dir: dir, s: s, cs: cs, clock: &atomic.Int64{}, run: run, heights: []uint64{h}, squares: []*vkit.Square{sq}}
 		hst.desc = fmt.Sprintf("directed#%d recent=%d serving=%d remover=%s reader1-via=%s middle=%v height=%d %s", i, v.recent, v.serving, v.remover, v.holdVia, v.middle, h, sq.Desc())
@@ -632,7 +634,7 @@ func c08directed(ctx context.Context, run *vkit.Run, r *vkit.RNG, base string, p
 		rec("put-odsq4", func() error { return s.PutODSQ4(ctx, sq.Roots, h, sq.EDS) })
 		// push the block out of the recent cache so that accessors are file-backed
 		if v.recent > 0 {
-			o := pool[(r.Intn(len(pool)-1)+1)%len(pool)]
+			o := pool[(sqi+1+r.Intn(len(pool)-1))%len(pool)] // another block: one data hash lives under one height
 			_ = s.PutODSQ4(ctx, o.Roots, h+1, o.EDS)
 			_ = s.RemoveODSQ4(ctx, h+1, o.Roots.Hash())
 		}
@@ -816,4 +818,111 @@ func c08forcedClose(ctx context.Context, run *vkit.Run, r *vkit.RNG, base string
 	_ = s.RemoveODSQ4(ctx, h2, sq2.Roots.Hash())
 	_ = s.Stop(ctx)
 	_ = os.RemoveAll(dir)
+}
+
+// c08firstMiss: many readers ask the serving cache for the same, not yet cached height at the same
+// moment (a burst of requests for a fresh block). Every reader's accessor serves the block; once all
+// of them closed theirs and the block was removed, no descriptor into the store directory is left —
+// whichever of the concurrent loads the cache kept. Rounds × readers released by a barrier; decided by
+// the descriptor table at quiescence, not by timing.
+func c08firstMiss(ctx context.Context, run *vkit.Run, r *vkit.RNG, base string, pool []*vkit.Square) {
+	rounds := vkit.Scale(60, 600)
+	dir := filepath.Join(base, "firstmiss")
+	_ = os.MkdirAll(dir, 0o755)
+	for _, cfg := range []struct{ recent, serving int }{{0, 8}, {0, 1}, {2, 4}} {
+		sdir := filepath.Join(dir, fmt.Sprintf("r%ds%d", cfg.recent, cfg.serving))
+		_ = os.MkdirAll(sdir, 0o755)
+		s, err := store.NewStore(&store.Parameters{RecentBlocksCacheSize: cfg.recent}, sdir)
+		if err != nil {
+			run.Inconclusive("first-miss: " + err.Error())
+			return
+		}
+		cs, err := s.WithCache("serving", cfg.serving)
+		if err != nil {
+			run.Inconclusive("first-miss: " + err.Error())
+			return
+		}
+		for round := 0; round < rounds/3; round++ {
+			rr := r.SplitN(fmt.Sprintf("fm%d/%d", cfg.recent, cfg.serving), round)
+			si := rr.Intn(len(pool))
+			sq := pool[si]
+			h := uint64(5000 + round)
+			withQ4 := rr.Bool()
+			desc := fmt.Sprintf("first-miss recent=%d serving=%d round=%d height=%d q4=%v %s", cfg.recent, cfg.serving, round, h, withQ4, sq.Desc())
+			if withQ4 {
+				err = s.PutODSQ4(ctx, sq.Roots, h, sq.EDS)
+			} else {
+				err = s.PutODS(ctx, sq.Roots, h, sq.EDS)
+			}
+			if err != nil {
+				run.Violation("C08 put fails under concurrency", map[string]any{"history": desc, "err": err.Error()})
+				continue
+			}
+			// push the block out of the recent-blocks cache: the serving cache then loads it from the file
+			for k := 0; k < cfg.recent; k++ {
+				o := pool[(si+1+rr.Intn(len(pool)-1))%len(pool)] // another block: one data hash lives under one height
+				_ = s.PutODS(ctx, o.Roots, h+100000+uint64(k), o.EDS)
+				_ = s.RemoveODSQ4(ctx, h+100000+uint64(k), o.Roots.Hash())
+			}
+			readers := 2 + rr.Intn(7)
+			start := make(chan struct{})
+			var wg sync.WaitGroup
+			var mu sync.Mutex
+			var probs []string
+			for g := 0; g < readers; g++ {
+				wg.Add(1)
+				go func(g int) {
+					defer wg.Done()
+					gr := rr.SplitN("reader", g)
+					<-start
+					acc, err := cs.GetByHeight(ctx, h)
+					if err != nil {
+						mu.Lock()
+						probs = append(probs, "CachedStore.GetByHeight: "+err.Error())
+						mu.Unlock()
+						return
+					}
+					for k := 0; k < 3; k++ {
+						if kind, p := c08read(ctx, gr, acc, sq); p != "" {
+							mu.Lock()
+							probs = append(probs, kind+": "+p)
+							mu.Unlock()
+						}
+					}
+					if err := acc.Close(); err != nil {
+						mu.Lock()
+						probs = append(probs, "Close: "+err.Error())
+						mu.Unlock()
+					}
+				}(g)
+			}
+			close(start)
+			wg.Wait()
+			run.Eval(1)
+			run.Count("first-miss/rounds", 1)
+			run.Count("first-miss/readers", readers)
+			for _, p := range probs {
+				run.Violation("C08 read through a concurrently loaded cached accessor is wrong", map[string]any{"history": desc, "what": p})
+			}
+			if err := s.RemoveODSQ4(ctx, h, sq.Roots.Hash()); err != nil {
+				run.Violation("C08 rm-odsq4 fails under concurrency", map[string]any{"history": desc, "err": err.Error()})
+			}
+			// the removal closes the cached accessor once its readers are gone (they are); descriptors of
+			// the removed block show up as "(deleted)" targets
+			var left []string
+			for i := 0; i < 50; i++ {
+				if left = c08fds(sdir); len(left) == 0 {
+					break
+				}
+				time.Sleep(10 * time.Millisecond)
+			}
+			if len(left) > 0 {
+				run.Violation("C08 file descriptors of a removed block stay open after all readers closed their accessors [concurrent first loads through the serving cache]",
+					map[string]any{"history": desc, "open": left, "readers": readers})
+				break // the leaked descriptor would be reported by every later round of this store
+			}
+		}
+		_ = s.Stop(ctx)
+	}
+	run.Require("first-miss/rounds", rounds*8/10)
 }
